@@ -9,6 +9,7 @@ from accelforge.frontend.arch import (
     Leaf,
     Component,
     Arch,
+    Array,
     Container,
     Spatialable,
 )
@@ -252,8 +253,17 @@ class Spec(EvalableModel):
             if not isinstance(leaf, Component):
                 continue
 
-            global_fanout = 1
+            # Number of instances of this component: its own fanout times the fanout of
+            # everything above it on its compute path. ``parents`` does not include the
+            # leaf itself. Compute nodes branch off to the side, so they are never
+            # above anything. The children of an Array are placed on the Array's grid
+            # by their own spatial fanout, so the Array's fanout does not multiply them.
+            global_fanout = leaf.get_fanout()
             for p in parents:
+                if isinstance(p, Compute):
+                    continue
+                if isinstance(p, Array) and any(n is leaf for n in p.nodes):
+                    continue
                 if isinstance(p, Spatialable):
                     global_fanout *= p.get_fanout()
 
